@@ -20,6 +20,7 @@ import threading
 import time
 
 import common
+import pubscan
 from common import Check, sx, unsx, names, run_model
 from vinegar.http import server as HS
 from vinegar.tftp import server as TS
@@ -258,9 +259,19 @@ ANC_MODES = ["none", "other-first", "other-only", "two"]
 
 
 def wrap_socket(s):
-    if not isinstance(s._socket, SockProxy):
-        s._socket = SockProxy(s._socket)       # TftpServer._run reads self._socket on every iteration
-    return s._socket
+    name, sock = pubscan.udp_socket_attr(s)
+    if not isinstance(sock, SockProxy):
+        setattr(s, name, SockProxy(sock))      # the receive loop reads the attribute on every iteration
+    return getattr(s, name)
+
+
+def set_pktinfo_off(s):
+    """simulate a platform without packet info on a started server: the one boolean attribute that says so is found by
+    its name containing "pktinfo" (STATED LIMIT: this one still depends on how the server names its flag)"""
+    names = [k for k, v in vars(s).items() if isinstance(v, bool) and "pktinfo" in k.lower()]
+    if not names:
+        raise LookupError("TFTP server: no boolean *pktinfo* attribute")
+    setattr(s, names[0], False)
 
 
 _PLATFORM_PKTINFO = None
@@ -338,22 +349,22 @@ def tftp_server(bind, pktinfo, filemode=False, restart=None):
         # pktinfo=True: the server is left as it configured itself - a server that does not enable packet info
         # although the platform has it shows up in the observation (the handler gets the bound address)
         if not pktinfo:
-            s._have_pktinfo = False       # read by TftpServer._run on every iteration
+            set_pktinfo_off(s)            # read by the receive loop on every iteration
             time.sleep(0.25)
         elif restart is not None:
             time.sleep(0.15)              # the receive loop has run at least once before the restart
-        _tftp[key] = (s, s._socket.getsockname())
+        _tftp[key] = (s, pubscan.udp_socket(s).getsockname())
     if restart == "restart":
         s = _tftp[key][0]
         for _try in range(5):
             s.stop()
             s.start()                     # same object, bind_port=0: a new ephemeral port
-            if not port_is_shared(s._socket.getsockname()[1]):
+            if not port_is_shared(pubscan.udp_socket(s).getsockname()[1]):
                 break
         if not pktinfo:
-            s._have_pktinfo = False
+            set_pktinfo_off(s)
             time.sleep(0.25)
-        _tftp[key] = (s, s._socket.getsockname())
+        _tftp[key] = (s, pubscan.udp_socket(s).getsockname())
     return _tftp[key]
 
 
@@ -367,12 +378,12 @@ def http_server(bind, filemode=False, restart=None):
         s = HS.HttpServer(hs, bind, 0)
         s.start()
         atexit.register(s.stop)
-        _http[key] = (s, s._server.socket.getsockname())
+        _http[key] = (s, pubscan.base_server(s).socket.getsockname())
     if restart == "restart":
         s = _http[key][0]
         s.stop()
         s.start()
-        _http[key] = (s, s._server.socket.getsockname())
+        _http[key] = (s, pubscan.base_server(s).socket.getsockname())
     return _http[key]
 
 
@@ -669,7 +680,7 @@ class C10(Check):
         LOGS[c["rid"]] = []
         if c.get("falsy_ctx"):
             FALSY.add(c["rid"])
-        loggers = [logging.getLogger("vinegar.http.server"), logging.getLogger("vinegar.tftp.server")]
+        loggers = pubscan.module_loggers(HS) + pubscan.module_loggers(TS)
         old = [lg.level for lg in loggers]
         if c.get("debug"):                       # the logging level is configuration: the property holds at every level
             for lg in loggers:
